@@ -379,16 +379,38 @@ fn build<'n>(pf: &str, ranker: &str, needle: &'n [u8]) -> Option<memchr::memmem:
         "none" => b.prefilter(Prefilter::None),
         _ => return None,
     };
+    match parse_rank(ranker)? {
+        None => Some(b.build_forward(needle)),
+        Some(tab) => Some(b.build_forward_with_ranker(TableRank(tab), needle)),
+    }
+}
+
+/// `default` or 512 hex digits
+fn parse_rank(ranker: &str) -> Option<Option<[u8; 256]>> {
     if ranker == "default" {
-        Some(b.build_forward(needle))
-    } else {
-        let t = parse_bytes(ranker)?;
-        if t.len() != 256 {
-            return None;
-        }
-        let mut tab = [0u8; 256];
-        tab.copy_from_slice(&t);
-        Some(b.build_forward_with_ranker(TableRank(tab), needle))
+        return Some(None);
+    }
+    let t = parse_bytes(ranker)?;
+    if t.len() != 256 {
+        return None;
+    }
+    let mut tab = [0u8; 256];
+    tab.copy_from_slice(&t);
+    Some(Some(tab))
+}
+
+/// `build` with the ranker already parsed (nothing here allocates on the harness side)
+fn build_parsed<'n>(pf: &str, rank: &Option<[u8; 256]>, needle: &'n [u8]) -> Option<memchr::memmem::Finder<'n>> {
+    use memchr::memmem::{FinderBuilder, Prefilter};
+    let mut b = FinderBuilder::new();
+    match pf {
+        "auto" => b.prefilter(Prefilter::Auto),
+        "none" => b.prefilter(Prefilter::None),
+        _ => return None,
+    };
+    match rank {
+        None => Some(b.build_forward(needle)),
+        Some(tab) => Some(b.build_forward_with_ranker(TableRank(*tab), needle)),
     }
 }
 
@@ -405,7 +427,8 @@ pub fn find_op(a: &[&str]) -> Option<String> {
     let hay = parse_bytes(a[7])?;
     let pn = Placed::new(&needle, NEEDLE_BASE);
     let ph = Placed::new(&hay, usz(a[6])?);
-    let (f, ba) = crate::measured_build(|| build(a[1], a[2], pn.slice()));
+    let rank = parse_rank(a[2])?;
+    let (f, ba) = crate::measured_build(|| build_parsed(a[1], &rank, pn.slice()));
     let f = f?;
     crate::vreset();
     verif::register_region(ph.ptr(), hay.len());
